@@ -17,7 +17,8 @@ HEADLINE = ["graphs", "graphs_with_cycle", "expected_reject", "expected_accept",
             "named_cycles_checked", "exhaustive_2sim_graphs", "sampled_3sim_graphs", "sampled_big_graphs"]
 
 PATHS = [(), (0,), (1,), (0, 0), (0, 1)]
-MENU_CROSS = [(), ("plain",), ("shift",), ("weak",), ("async",), ("plain", "shift"), ("plain", "weak"), ("shift", "weak")]
+MENU_CROSS = [(), ("plain",), ("shift",), ("weak",), ("async",), ("plain", "shift"), ("plain", "weak"), ("shift", "weak"),
+              ("shift", "async"), ("async", "shift"), ("weak", "async"), ("shift+async",)]
 MENU_SELF = [(), ("shift",), ("weak",), ("plain",)]
 
 
@@ -41,8 +42,10 @@ def mk_scn(paths: List[Tuple[int, ...]], edges: Dict[Tuple[int, int], Tuple[str,
         for kind in kinds:
             c: Dict[str, Any] = {"src": f"S{u}", "se": "e0", "dst": f"S{v}", "de": "e0"}
             if kind == "async":
-                c["async"] = True
-                # async needs no attribute pair, but give it one plain data-flow like real users do
+                c["async"] = True       # connect(src, dest, async_requests=True) without attribute pairs
+            elif kind == "shift+async":
+                c["async"] = True       # one connect() call: time-shifted data-flow + async_requests
+                c["shift"] = 1
                 c["sa"] = f"o{port[('o', u)]}"
                 c["da"] = f"i{port[('i', v)]}"
             else:
@@ -81,7 +84,7 @@ def check_graph(scn: dict, C: Counter, viol) -> None:
     o = tr["outcome"]
     stepped = any(e.get("op") == "call" and e.get("kind") == "step" for e in tr["events"])
     desc = {"paths": {s["sid"]: s["path"] for s in scn["sims"]},
-            "conns": [(c["src"], c["dst"], "async" if c.get("async") else ("weak" if c.get("weak") else ("shift" if c.get("shift") else "plain")))
+            "conns": [(c["src"], c["dst"], ("shift+" if c.get("shift") and c.get("async") else "") + ("async" if c.get("async") else ("weak" if c.get("weak") else ("shift" if c.get("shift") else "plain"))))
                       for c in scn["conns"]]}
     if o["kind"] == "connect_error":
         C["connect_error_skipped"] += 1
